@@ -14,6 +14,7 @@ import (
 	"verif/internal/dom"
 	"verif/internal/ev"
 	"verif/internal/load"
+	"verif/internal/rules"
 )
 
 func init() { register("C19", "other", false, c19) }
@@ -490,13 +491,14 @@ func c19(cx *Ctx, r *ev.Report) {
 	}
 	// the constant tables have no writer outside package initialisation
 	n := 0
+	initFns := rules.InitClosure(allFunctions(cx.P))
 	for _, pkg := range []string{binPkg, casPkg} {
 		sp := cx.P.SSAPkg(pkg)
 		if sp == nil {
 			continue
 		}
 		for fn := range allFunctions(cx.P) {
-			if fn.Pkg != sp || fn.Name() == "init" {
+			if fn.Pkg != sp || initFns[fn] {
 				continue
 			}
 			for _, b := range fn.Blocks {
